@@ -150,7 +150,7 @@ RepeatEls(s, els, n, acc) ==
 (* operators (spec.md Operators and Expressions) *)
 
 ApplyUn(s, op, v) ==
-  IF op = "-" THEN (IF IsZero(v) \/ ~Small(v) THEN Unspec(s) ELSE RetPop(s, NumNeg(v)))
+  IF op = "-" THEN (IF IsZero(v) \/ ~(Small(v) \/ IsBig(v) \/ v.e = 0) THEN Unspec(s) ELSE RetPop(s, NumNeg(v)))
   ELSE RetPop(s, VBool(~v.b))
 
 NumResult(s, v) == IF Exact(v) THEN RetPop(s, v) ELSE Unspec(s)
